@@ -49,6 +49,7 @@ def profile_dir(profile):
 
 
 _built = set()
+NO_INTERNALS = set()
 
 
 def build(config, package="vh"):
@@ -68,6 +69,22 @@ def build(config, package="vh"):
         cmd += ["--features", ",".join(c["features"])]
     t0 = time.time()
     p = subprocess.run(cmd, cwd=HARNESS, env=cargo_env(c["rustflags"]), stdout=subprocess.PIPE, stderr=subprocess.STDOUT, text=True)
+    if p.returncode != 0 and package == "vh":
+        # The explicit-state explorer of C02/C11 reads the public state fields of the cipher objects. If a
+        # refactoring removed or renamed them, everything else must still run: retry without `internals`.
+        cmd2 = [x for x in cmd]
+        if "--features" in cmd2:
+            i = cmd2.index("--features")
+            del cmd2[i:i + 2]
+        cmd2 += ["--no-default-features"]
+        if c["features"]:
+            cmd2 += ["--features", ",".join(c["features"])]
+        p2 = subprocess.run(cmd2, cwd=HARNESS, env=cargo_env(c["rustflags"]), stdout=subprocess.PIPE, stderr=subprocess.STDOUT, text=True)
+        if p2.returncode == 0:
+            log("[build] %s builds only WITHOUT cipher internals (public state fields of the ChaCha ciphers changed): C02/C11 cannot run" % config)
+            NO_INTERNALS.add(config)
+            _built.add(key)
+            return binp
     if p.returncode != 0:
         raise Machinery("build of configuration %s failed:\n%s" % (config, p.stdout[-4000:]))
     log("[build] %s (%s) %.1fs" % (config, package, time.time() - t0))
@@ -243,8 +260,10 @@ def simple(pid, level, sub, configs_quick, configs_thorough=None):
         for c in cfgs:
             try:
                 build(c)
+                if c in NO_INTERNALS and pid in ("C02", "C11"):
+                    raise Machinery("the public state fields of the ChaCha cipher objects are no longer accessible; the explicit-state explorer of %s cannot be built against this tree" % pid)
             except Machinery as e:
-                if c == cfgs[0]:
+                if c == cfgs[0] or (c in NO_INTERNALS and pid in ("C02", "C11")):
                     raise
                 # the main configuration builds, this one does not: the property quantifies over it
                 results.append(dict(config=c, evaluations=0, distinct_nontrivial=0, exhaustive=False, rule="", samples=[],
@@ -467,6 +486,21 @@ def plan_c20(tier):
     return finish("C20", tier, "exploration", [res], t0)
 
 
+def plan_c18(tier):
+    import tsan
+    t0 = time.time()
+    selftest()
+    r = run_engine("rel", ["c18", "--tier", tier], "C18-%s-rel" % tier, timeout=(900 if tier == "quick" else 6 * 3600))
+    info, viol = tsan.run(tier)
+    r.setdefault("extra", {})["race_detector_supplement"] = info
+    r["violations"] = r.get("violations", []) + viol
+    if info.get("available"):
+        log("[tsan] %d cold processes, %d reports, %.0fs (build %.0fs)" % (info["cold_processes"], info["reports"], info["wall_s"], info["build_s"]))
+    else:
+        log("[tsan] race-detector supplement unavailable: %s" % info.get("reason", "")[-200:])
+    return finish("C18", tier, "model_checking", [r], t0)
+
+
 def multi(pid, level, sub, cfgs_quick, cfgs_thorough=None, tiers_env=None):
     return simple(pid, level, sub, cfgs_quick, cfgs_thorough)
 
@@ -489,7 +523,7 @@ PLANS = {
     "C15": simple("C15", "model_checking", "c15", ["rel", "ovf"], ["rel", "ovf", "nosimd"]),
     "C16": simple("C16", "exploration", "c16", ["rel", "nosimd"]),
     "C17": simple("C17", "model_checking", "c17", ["rel", "ovf"]),
-    "C18": simple("C18", "model_checking", "c18", ["rel"]),
+    "C18": plan_c18,
     "C19": simple("C19", "exploration", "c19", ["rel", "ovf"], ["rel", "ovf", "dev"]),
     "C20": plan_c20,
 }
@@ -533,6 +567,9 @@ def main(argv):
                     if b is None:
                         log("[setup] probe configuration %s does not build (reported by C03/C20 as a finding)" % n)
             selftest()
+            import tsan
+            secs, err = tsan.build()
+            log("[setup] race-detector build: %s" % ("%.0fs" % secs if secs is not None else "unavailable (%s)" % err[-200:]))
             return 0
         if argv[0] == "selftest":
             selftest()
